@@ -1,8 +1,18 @@
-(* C04 - Request processing terminates within the substitution limit. Theorems only. (All model functions are total Coq functions, so termination itself is by construction: the substitution loops recurse on fuel = SUBSTITUTION_LIMIT.) Vocabulary: Ready cfg s a = the machine is at a point where requests are processed (or between API calls) with state a < n active, registry.requested = INVALID, the outstanding request (if any) names a state, the plan is well formed; Inv = the same without naming a. loop_rounds = the guard rounds the substitution loop executes (ghost-instrumented copy of the loop, proved equal to it: transitions_loop_g_erase), each with its pending transition, whether it was cancelled, and whether it was dropped by applyRequest's same-destination rule; last_survivor = the pending transition of the last round neither cancelled nor dropped; rounds_shape / guard_round describe the events of the rounds (exit guard of the active state, then - unless it cancelled - entry guard of the destination; every guard view shows that round's pending transition and the survivor so far); change a a' l = the lifecycle events exit(a);enter(a') | reenter(a) | ...; quiet a l = no enter/exit/reenter in l and every view shows a active. *)
+(* C04 - Request processing terminates within the substitution limit. Theorems only. (All model functions are total Coq
+   functions, so termination itself is by construction: the substitution loops recurse on fuel = SUBSTITUTION_LIMIT.)
+   Vocabulary: Ready cfg s a = the machine is at a point where requests are processed (or between API calls) with state
+   a < n active, registry.requested = INVALID, the outstanding request (if any) names a state, the plan is well formed;
+   Inv = the same without naming a. loop_rounds = the guard rounds the substitution loop executes (ghost-instrumented
+   copy of the loop, proved equal to it: transitions_loop_g_erase), each with its pending transition, whether it was
+   cancelled, and whether it was dropped by applyRequest's same-destination rule; last_survivor = the pending
+   transition of the last round neither cancelled nor dropped; rounds_shape / guard_round describe the events of the
+   rounds (exit guard of the active state, then - unless it cancelled - entry guard of the destination; every guard
+   view shows that round's pending transition and the survivor so far); change a a' l = the lifecycle events
+   exit(a);enter(a') | reenter(a) | ...; quiet a l = no enter/exit/reenter in l and every view shows a active. *)
 From Coq Require Import List Arith Bool NArith.
 From FFSM2 Require Import Model.TaskList Model.BitArray Model.BitStream Model.Plan Model.Ancestors Model.Machine
   Proofs.BitArrayProofs Proofs.MachineFrame Proofs.MachinePlan Proofs.MachineLife Proofs.GuardProofs Proofs.CycleProofs Proofs.PlanStep
-  Proofs.SerialProofs Proofs.LogProofs Proofs.MachineTop Model.Multi Generated.InitFacts Proofs.ConstructProofs Proofs.LifeMonitor Proofs.ActivationRounds Proofs.IndexSafety.
+  Proofs.SerialProofs Proofs.LogProofs Proofs.MachineTop Model.Multi Generated.InitFacts Proofs.ConstructProofs Proofs.LifeMonitor Proofs.ActivationRounds Proofs.IndexSafety Proofs.FeatureProofs.
 Import ListNotations.
 
 (* at most SUBSTITUTION_LIMIT guard rounds per processing step, whatever the guards do *)
@@ -12,7 +22,8 @@ Theorem C04_rounds_le_limit :
 Proof. exact (rounds_le_limit). Qed.
 Print Assumptions C04_rounds_le_limit.
 
-(* the request left over when the loop stops is kept untouched, and one is left over only if all SUBSTITUTION_LIMIT rounds were used *)
+(* the request left over when the loop stops is kept untouched, and one is left over only if all SUBSTITUTION_LIMIT
+   rounds were used *)
 Theorem C04_leftover_untouched :
   forall (P : Type) (cfg : config) (orc : oracle P),
          wf_cfg cfg ->
@@ -35,7 +46,8 @@ Theorem C04_leftover_means_full :
 Proof. exact (leftover_full). Qed.
 Print Assumptions C04_leftover_means_full.
 
-(* when the limit is reached the call still ends with exactly one active state: the last survivor's destination (or the old state), by the same theorem as C02 *)
+(* when the limit is reached the call still ends with exactly one active state: the last survivor's destination (or the
+   old state), by the same theorem as C02 *)
 Theorem C04_state_chosen_among_survivors :
   forall (P : Type) (cfg : config) (orc : oracle P),
          wf_cfg cfg ->
@@ -67,7 +79,9 @@ Theorem C04_state_chosen_among_survivors :
 Proof. exact (process_request_top). Qed.
 Print Assumptions C04_state_chosen_among_survivors.
 
-(* activation: ends with exactly one active state below n and registry.requested consumed, for any guard behaviour (the redirection loop of initialEnter recurses on fuel = SUBSTITUTION_LIMIT after one evaluation of the initial entry guards) *)
+(* activation: ends with exactly one active state below n and registry.requested consumed, for any guard behaviour (the
+   redirection loop of initialEnter recurses on fuel = SUBSTITUTION_LIMIT after one evaluation of the initial entry
+   guards) *)
 Theorem C04_activation :
   forall (P : Type) (cfg : config) (orc : oracle P) (PI : plan_data P -> Prop),
          plan_inv_ok P cfg PI ->
@@ -92,7 +106,8 @@ Theorem C04_activation_rounds_le_limit :
 Proof. exact (initial_rounds_le_limit). Qed.
 Print Assumptions C04_activation_rounds_le_limit.
 
-(* activation = one evaluation of the initial entry guards (verdict ignored), at most SUBSTITUTION_LIMIT rounds, then entry into the last survivor's destination or state 0 *)
+(* activation = one evaluation of the initial entry guards (verdict ignored), at most SUBSTITUTION_LIMIT rounds, then
+   entry into the last survivor's destination or state 0 *)
 Theorem C04_activation_exact :
   forall (P : Type) (cfg : config) (orc : oracle P) (PI : plan_data P -> Prop),
          plan_inv_ok P cfg PI ->
@@ -121,7 +136,8 @@ Theorem C04_activation_exact :
 Proof. exact (initial_enter_rounds). Qed.
 Print Assumptions C04_activation_exact.
 
-(* the number of root entry-guard evaluations during activation is one plus the rounds that reached their guards, at most 1 + SUBSTITUTION_LIMIT *)
+(* the number of root entry-guard evaluations during activation is one plus the rounds that reached their guards, at
+   most 1 + SUBSTITUTION_LIMIT *)
 Theorem C04_activation_guard_evaluations :
   forall (P : Type) (cfg : config) (orc : oracle P) (PI : plan_data P -> Prop),
          plan_inv_ok P cfg PI ->
